@@ -26,6 +26,10 @@ func apiLevel(c *engine.Ctx, evals *int64) {
 		{"reordered", []krbmsg.HostAddress{req[1], req[0]}, "accept"},
 		{"superset", append(append([]krbmsg.HostAddress{}, req...), krbmsg.HostAddress{Type: 2, Addr: []byte{10, 0, 0, 3}}), "reject"},
 		{"disjoint", []krbmsg.HostAddress{{Type: 2, Addr: []byte{192, 168, 0, 1}}}, "reject"},
+		{"same-length-one-replaced", []krbmsg.HostAddress{req[0], {Type: 2, Addr: []byte{10, 0, 0, 9}}}, "reject"},
+		{"same-length-both-replaced", []krbmsg.HostAddress{{Type: 2, Addr: []byte{10, 0, 0, 8}}, {Type: 2, Addr: []byte{10, 0, 0, 9}}}, "reject"},
+		{"subset", []krbmsg.HostAddress{req[0]}, "reject"},
+		{"duplicated-entry", []krbmsg.HostAddress{req[0], req[0]}, "reject"},
 		{"other-type-same-bytes", []krbmsg.HostAddress{{Type: 24, Addr: []byte{10, 0, 0, 1}}, req[1]}, "reject"},
 	}
 	for _, et := range []int32{18, 23} {
